@@ -147,4 +147,41 @@ def callArgCountK (extra nPos : Nat) (hasKwargs : Bool) : Chk Nat :=
   let pending := extra + nPos + (if hasKwargs then 1 else 0)
   if pending % 65536 = pending then .ok pending else .panic
 
+/-! ## `debug::render_debug_info`: the window of source lines around the error line
+
+`idx = line.unwrap_or(1).saturating_sub(1)`, up to three lines before (`skip(idx.saturating_sub(3)).take(3.min(idx))`),
+the line itself (`lines.get(idx)`), up to three lines after (`skip(idx + 1).take(3)`); every printed line
+number is the plain sum `index + 1`. -/
+
+/-- a plain `usize` addition -/
+def usizeAdd (a b : Nat) : Chk Nat := if a + b < 18446744073709551616 then .ok (a + b) else .panic
+
+/-- `index + 1` for every index of the list -/
+def numberAll : List Nat → Chk (List Nat)
+  | [] => .ok []
+  | i :: is =>
+    match usizeAdd i 1 with
+    | .panic => .panic
+    | .ok x =>
+      match numberAll is with
+      | .panic => .panic
+      | .ok xs => .ok (x :: xs)
+
+/-- the printed line numbers: before, the line, after (`n` = number of source lines) -/
+def debugWindowK (line : Option Nat) (n : Nat) : Chk (List Nat × List Nat × List Nat) :=
+  let idx := (line.getD 1) - 1
+  let skip := idx - 3
+  match numberAll (((List.range n).drop skip).take (min 3 idx)) with
+  | .panic => .panic
+  | .ok pre =>
+    match numberAll (if idx < n then [idx] else []) with
+    | .panic => .panic
+    | .ok cur =>
+      match usizeAdd idx 1 with
+      | .panic => .panic
+      | .ok after =>
+        match numberAll (((List.range n).drop after).take 3) with
+        | .panic => .panic
+        | .ok post => .ok (pre, cur, post)
+
 end MJ.IntOps
